@@ -74,6 +74,9 @@ def cases(tier):
             first = ["Client", "Client", "Server"]
             if prot != "soap12":
                 first.append(draw(NCNAME))
+                # look-alikes of the two reserved heads (classification must be exact)
+                first.append(draw(st.sampled_from(["Clientx", "ClientError", "client", "CLIENT",
+                                                   "Clien", "Servers", "server", "Sender"])))
             code = ".".join([draw(st.sampled_from(first))] +
                             draw(st.lists(NCNAME, min_size=0, max_size=3)))
             msg = draw(st.one_of(lex.xml_text(1, 30), st.sampled_from(
